@@ -93,6 +93,9 @@ def run_case(case, ctx):
         sentinel = b"previous content of the output path " * 5
         with open(out, "wb") as fh:
             fh.write(sentinel)
+    if not case.get("unsupported"):
+        from .. import conv
+        conv.leave_stale(out, repr(case["file"]["shape"]) + repr(case["file"]["values"]))
     opened = []
     form = case.get("src_form") or "str"
     if form == "nofd":
